@@ -882,6 +882,13 @@ func (x *Evaluator) evalLoad(v *ssa.UnOp, e *env, c *evalCtx) Val {
 	case *ssa.IndexAddr:
 		return x.evalElemRead(a, v.Type(), e, c)
 	case *ssa.Global:
+		// package-level state of the converter package behaves like a field of the (single) converter
+		if a.Pkg != nil && a.Pkg == v.Parent().Pkg && (isInt(v.Type()) || isString(v.Type())) {
+			if isInt(v.Type()) && e.site != "" && storesGlobal(v.Parent(), a) {
+				return IntV{Origin: "field:" + a.Name() + "@" + e.site}
+			}
+			return x.symbolic(v.Type(), "field:"+a.Name())
+		}
 		return x.symbolic(v.Type(), "global:"+a.Name())
 	}
 	return x.symbolic(v.Type(), "load")
@@ -1465,6 +1472,17 @@ func (x *Evaluator) charCompare(ch charOf, other Val, op token.Token, e *env, c 
 }
 
 // storesField: fn contains a store to the same struct field as fa.
+func storesGlobal(fn *ssa.Function, g *ssa.Global) bool {
+	for _, b := range fn.Blocks {
+		for _, ins := range b.Instrs {
+			if st, ok := ins.(*ssa.Store); ok && st.Addr == g {
+				return true
+			}
+		}
+	}
+	return false
+}
+
 func storesField(fn *ssa.Function, fa *ssa.FieldAddr) bool {
 	for _, b := range fn.Blocks {
 		for _, ins := range b.Instrs {
